@@ -245,7 +245,7 @@ def check(ctx):
     c04.group_rule(ctx, 'R10.9', r'^<(pattern::Pattern|parse::(Assignment|Function|FunctionParam|Match|MatchArm|MatchPattern)|str::(Identifier|FunctionName)) as parse::PestParse>::parse(::\{closure#\d+\})*$', 'construction of binders from the parse (patterns, let, parameters, match arms)', 7)
     r_pairing(ctx)
     r_order_ast(ctx)
-    c01.schema_rules(ctx, only={'compile::compile_blk': None, 'compile::<impl ast::Expression>::compile': None, 'compile::<impl ast::Match>::compile': None, 'compile::<impl ast::Call>::compile': r'=Custom\b'})
+    c01.schema_rules(ctx, only={'compile::compile_blk': None, 'compile::<impl ast::Expression>::compile': None, 'compile::<impl ast::Match>::compile': None, 'compile::<impl ast::Call>::compile': r'=(Custom|Fold|ForWhile)\b'})
     r_function_scope(ctx)
     r_lookup_ast(ctx)
     binding.r_lookup(ctx, 'R10.5')
